@@ -149,6 +149,22 @@ class SolverStub:
         pass
 
 
+_DECL = re.compile(r"\(declare-fun (f_evm_(bvmul|bvudiv|bvurem|bvsdiv|bvsrem)_(\d+)) \(\(_ BitVec (\d+)\) \(_ BitVec (\d+)\)\) \(_ BitVec (\d+)\)\)")
+
+
+def reference_refine(text: str) -> str:
+    """independent statement of what refinement must do: every mul/div/rem abstraction becomes its exact EVM
+    operation (division and remainder by zero are zero)"""
+
+    def rep(m):
+        name, op, n = m.group(1), m.group(2), m.group(3)
+        bv = f"(_ BitVec {n})"
+        body = "(bvmul x y)" if op == "bvmul" else f"(ite (= y (_ bv0 {n})) (_ bv0 {n}) ({op} x y))"
+        return f"(define-fun {name} ((x {bv}) (y {bv})) {bv} {body})"
+
+    return _DECL.sub(rep, text)
+
+
 class CacheMonitor:
     """observes halmos.solve.check_unsat_cores: every query answered `unsat` from the unsat-core cache is
     re-solved by the truthful solver (the text is what halmos would have dumped for it)"""
@@ -173,6 +189,9 @@ class CacheMonitor:
                 text = ("(set-option :produce-unsat-cores true)\n(set-logic QF_AUFBV)\n"
                         f"{query.smtlib}\n{named}(check-sat)\n(get-model)\n")
                 so, se, rc = truthful_reply(text, mon.solver)
+                if so.startswith("sat") and "f_evm_" in so:
+                    # the model leans on an arithmetic abstraction: the truth is what the exact semantics says
+                    so, se, rc = truthful_reply(reference_refine(text), mon.solver)
                 mon.hits.append(dict(truth=so.split("\n", 1)[0].strip(), wall_timeout=rc == -99,
                                      n_cores=len(unsat_cores), n_assertions=len(query.assertions),
                                      empty_core=any(len(c) == 0 for c in unsat_cores)))
